@@ -13,8 +13,8 @@ open CprocVerif.LowerArith CprocVerif.LowerMach CprocVerif.LowerMem
 
 /-- an expression statement stays well-formed when more variables are in scope -/
 theorem wt_simple_mono {vtys : List CSem.Ty} {ret : CSem.Ty} {st : Stmt} (hs : st.isSimple = true)
-    {lp lp' : Bool} {nd nd2 n' : Nat} (h : Stmt.wt vtys ret lp nd st = some n') (hle : nd ≤ nd2) :
-    Stmt.wt vtys ret lp' nd2 st = some nd2 := by
+    {lb lc lb' lc' : Bool} {nd nd2 n' : Nat} (h : Stmt.wt vtys ret lb lc nd st = some n') (hle : nd ≤ nd2) :
+    Stmt.wt vtys ret lb' lc' nd2 st = some nd2 := by
   cases st <;> simp only [Stmt.isSimple, Bool.false_eq_true] at hs
   · rfl
   · rename_i i t e
@@ -40,7 +40,7 @@ theorem frag_simple {st : Stmt} (hs : st.isSimple = true) : frag st = true := by
   cases st <;> simp only [Stmt.isSimple, Bool.false_eq_true] at hs <;> rfl
 
 section
-variable (T : Stat) {s : Store} {out : CSem2.Outcome} {lp : Bool} {brk cont : String} {c : SCtx}
+variable (T : Stat) {s : Store} {out : CSem2.Outcome} {lp : Bool × Bool} {brk cont : String} {c : SCtx}
   {nd nd' : Nat} {pre post : List Item} {env : Env} {M : Mem}
 
 /-- `for` after its head `hd` (condition and branch, or the bare label `for_body`), whose behaviour is
@@ -49,7 +49,7 @@ theorem sim_for_core (n : Nat) (ih : ∀ m, m ≤ n → SimStmt T m) (e : Option
     (hd : List Item × SCtx)
     (hex : exec T.S.cs (n + 1) s (.for_ e step b) = some out) (hfs : frag step = true) (hfb : frag b = true)
     (hsimple : step.isSimple = true) {n2 : Nat}
-    (hwb : Stmt.wt T.vtys T.ret true nd b = some nd') (hws : Stmt.wt T.vtys T.ret false nd step = some n2)
+    (hwb : Stmt.wt T.vtys T.ret true true nd b = some nd') (hws : Stmt.wt T.vtys T.ret false false nd step = some n2)
     (hp : Pos T c nd pre)
     (hph : Pos T hd.2 nd (pre ++ [.lbl none (lblName "for_cond" (c.blockid + 1)) []] ++ hd.1))
     (hbk : c.blockid + 4 ≤ hd.2.blockid)
@@ -89,7 +89,7 @@ theorem sim_for_core (n : Nat) (ih : ∀ m, m ≤ n → SimStmt T m) (e : Option
       ((funcstmt T.S.cs brk cont step ((funcstmt T.S.cs (lblName "for_join" (c.blockid + 4))
         (lblName "for_cont" (c.blockid + 3)) b hd.2).ctx.atLabel
         (lblName "for_cont" (c.blockid + 3)))).ctx.atLabel (lblName "for_join" (c.blockid + 4))) out := by
-  obtain ⟨hnb, hcb⟩ := wt_noDead _ _ b _ _ _ hwb
+  obtain ⟨hnb, hcb⟩ := wt_noDead _ _ b _ _ _ _ hwb
   have hns : noDead step = true := by
     cases step <;> simp only [Stmt.isSimple, Bool.false_eq_true] at hsimple <;> rfl
   have gb := funcstmt_good T.S.cs b (lblName "for_join" (c.blockid + 4)) (lblName "for_cont" (c.blockid + 3))
@@ -129,7 +129,7 @@ theorem sim_for_core (n : Nat) (ih : ∀ m, m ≤ n → SimStmt T m) (e : Option
     refine ⟨rfl, curOf_lbl _ _ _ _ _, ?_, hsl1, hsl2⟩
     unf
     exact curOK_label "for_cont" _ _ _ (by omega)
-  have hws' : Stmt.wt T.vtys T.ret false nd' step = some nd' := wt_simple_mono hsimple hws (by omega)
+  have hws' : Stmt.wt T.vtys T.ret false false nd' step = some nd' := wt_simple_mono hsimple hws (by omega)
   have hhead := hhead (hextb.first gb) hcj
   have hitsbody : T.S.its = (pre ++ [.lbl none (lblName "for_cond" (c.blockid + 1)) []] ++ hd.1) ++ ob.items ++
       (.lbl ob.ctx.jump (lblName "for_cont" (c.blockid + 3)) [] ::
@@ -202,8 +202,8 @@ theorem sim_for_core (n : Nat) (ih : ∀ m, m ≤ n → SimStmt T m) (e : Option
             cases os' with
             | normal s'' =>
               simp only at hc
-              have ps := ih (k + 1) hk step s' (.normal s'') false brk cont _ nd' nd' _ _ env' M' hes hfs hws'
-                hps (by rw [hos]; exact hext) (by rw [hos]; exact hitsstep) (by intro h; cases h) inv'
+              have ps := ih (k + 1) hk step s' (.normal s'') (false, false) brk cont _ nd' nd' _ _ env' M' hes hfs hws'
+                hps (by rw [hos]; exact hext) (by rw [hos]; exact hitsstep) ⟨(by intro h; cases h), (by intro h; cases h)⟩ inv'
               rw [hos] at ps
               obtain ⟨hjs, k2, env2, M2, hr2, inv2⟩ := ps
               have hitsJ' := hitsJ
@@ -219,11 +219,11 @@ theorem sim_for_core (n : Nat) (ih : ∀ m, m ≤ n → SimStmt T m) (e : Option
         | none => rw [heb] at hex; cases hex
         | some ob' =>
           rw [heb] at hex
-          have pb := ih (k + 1) hk b s ob' true (lblName "for_join" (c.blockid + 4))
+          have pb := ih (k + 1) hk b s ob' (true, true) (lblName "for_join" (c.blockid + 4))
             (lblName "for_cont" (c.blockid + 3)) _ nd nd' _ _ env1 M heb hfb hwb hph
-            (by rw [hob]; exact hextb) (by rw [hob]; exact hitsbody) (fun _ => ⟨hcj, hct⟩) inv1
+            (by rw [hob]; exact hextb) (by rw [hob]; exact hitsbody) ⟨fun _ => hcj, fun _ => hct⟩ inv1
           rw [hob] at pb
-          have dn := pb.close hitsC (fun _ => ⟨hcj, hct⟩)
+          have dn := pb.close hitsC ⟨fun _ => hcj, fun _ => hct⟩
           cases ob' with
           | normal s' =>
             simp only at hex
@@ -257,7 +257,7 @@ theorem sim_for_core (n : Nat) (ih : ∀ m, m ≤ n → SimStmt T m) (e : Option
 
 theorem sim_for (n : Nat) (ih : ∀ m, m ≤ n → SimStmt T m) (e : Option Expr) (step b : Stmt)
     (hex : exec T.S.cs (n + 1) s (.for_ e step b) = some out) (hfr : frag (.for_ e step b) = true)
-    (hwt : Stmt.wt T.vtys T.ret lp nd (.for_ e step b) = some nd') (hp : Pos T c nd pre)
+    (hwt : Stmt.wt T.vtys T.ret lp.1 lp.2 nd (.for_ e step b) = some nd') (hp : Pos T c nd pre)
     (hext : Ext T (funcstmt T.S.cs brk cont (.for_ e step b) c).ctx)
     (hits : T.S.its = pre ++ (funcstmt T.S.cs brk cont (.for_ e step b) c).items ++ post)
     (inv : SInv T.S.cs T.σ T.vtys s env M) :
@@ -267,7 +267,7 @@ theorem sim_for (n : Nat) (ih : ∀ m, m ≤ n → SimStmt T m) (e : Option Expr
   simp only [Stmt.wt] at hwt
   split at hwt
   · rename_i hc
-    obtain ⟨hwe, hsimple⟩ := hc
+    obtain ⟨hwe, hsimple, _⟩ := hc
     simp only [Option.bind_eq_some_iff, Option.some.injEq] at hwt
     obtain ⟨n1, hwb, n2, hws, rfl⟩ := hwt
     cases e with
